@@ -70,6 +70,16 @@ func TestC19(t *testing.T) {
 		}
 		c.Argv, _ = GenArgv(rt, eff, ast, cfg)
 		for i, a := range c.Argv {
+			if a == "--" {
+				break
+			}
+			// "-f=true" / "--flag=true" of a flag-like custom type: any other literal must reach Set just as it was written
+			if k := strings.Index(a, "=true"); k > 1 && k+5 == len(a) && d.Lookup(a[:k]) >= 0 && d.Opts[d.Lookup(a[:k])].Bool && chance(rt, 1, 2, "boolliteral") {
+				c.Argv[i] = a[:k+1] + rapid.SampledFrom([]string{"1", "0", "false", "T", "f", "TRUE", "yes"}).Draw(rt, "literal")
+				st.Class("argv:flag-given-an-explicit-literal-other-than-true")
+			}
+		}
+		for i, a := range c.Argv {
 			if strings.ContainsRune(a, 0) {
 				c.Argv[i] = "x"
 			}
